@@ -52,6 +52,7 @@ type Op struct {
 	Ops    []Op    `json:"ops,omitempty"`   // for Kind "par"
 	Sched  []Token `json:"sched,omitempty"` // for Kind "par": imposed schedule ("free" mode if Gate false)
 	Gate   bool    `json:"gate,omitempty"`
+	Lane   int     `json:"lane,omitempty"` // inside a free-running "par": ops with the same lane > 0 run one after the other in one goroutine (a sequential client)
 	KillAfterUs int `json:"kill_after_us,omitempty"` // remote mode: SIGKILL the binary this many microseconds after the request was sent
 	N      int     `json:"n,omitempty"` // for Kind "scatter": batch size
 	P      int     `json:"p,omitempty"` // for Kind "scatter": GOMAXPROCS
@@ -855,12 +856,26 @@ func (r *Runner) runPar(ctx context.Context, st *Stack, b *Base, op Op) {
 		r.Ctl.StartFn = func(rid string) { run(byID[rid]) }
 		r.Ctl.StartGating(ids, lazy)
 	}
+	lanes := map[int][]Op{}
 	for _, o := range op.Ops {
+		if !op.Gate && o.Lane > 0 {
+			lanes[o.Lane] = append(lanes[o.Lane], o)
+			continue
+		}
 		wg.Add(1)
 		if op.Gate && lazy[o.ID] {
 			continue
 		}
 		go run(o)
+	}
+	for _, seq := range lanes {
+		wg.Add(1)
+		go func(seq []Op) {
+			defer wg.Done()
+			for _, o := range seq {
+				r.runSign(ctx, st, b, o)
+			}
+		}(seq)
 	}
 	if op.Gate {
 		res := r.Ctl.RunSchedule(op.Sched)
